@@ -1174,9 +1174,17 @@ func (e *Engine) execBlock(fn *ssa.Function, s *St) ([]succ, []Out) {
 			}
 			switch p := e.get(s, in.X).(type) {
 			case PtrV:
+				if arr, ok := s.heap[p.id].(ArrObj); ok && len(p.path) == 0 && (idx.n.Sign() < 0 || int(idx.n.Int64()) >= len(arr.e)) {
+					return nil, []Out{{s.State, true, constBytes("index out of range")}}
+				}
 				s.env[in] = PtrV{id: p.id, path: append(append([]int(nil), p.path...), int(idx.n.Int64()))}
 			case ListV:
+				if arr := s.heap[p.id].(ArrObj); idx.n.Sign() < 0 || int(idx.n.Int64()) >= len(arr.e) { // Go panic / VM fault
+					return nil, []Out{{s.State, true, constBytes("index out of range")}}
+				}
 				s.env[in] = PtrV{id: p.id, path: []int{int(idx.n.Int64())}}
+			case NullV:
+				return nil, []Out{{s.State, true, constBytes("index of nil slice")}}
 			case BytesV:
 				s.env[in] = PtrV{id: -1, path: []int{int(idx.n.Int64())}, ref: in.X}
 			default:
